@@ -169,9 +169,14 @@ def seed_global_streams(seed):
     random.seed(int(b))
 
 
+class BusyWait(Exception):
+    """The code under test keeps reading the clock without doing any work."""
+
+
 class FakeClock:
     """Simulated wall clock for single-process (E1) runs: reading it costs a tick,
-    posterior evaluations advance it (see targets.Target)."""
+    posterior evaluations advance it (see targets.Target).  Records the history of
+    readings and evaluations that the timed-run oracles of C15 need."""
 
     EPOCH = 1.7e9
 
@@ -179,8 +184,34 @@ class FakeClock:
         self.now = 0.0
         self.tick = tick
         self.reads = 0
-        self.trace = None  # optional list of ("read", now)
         self.jump_schedule = []  # list of (at_read_number, dt)
+        # --- timed-run bookkeeping (armed by the harness around run_for)
+        self.armed = False
+        self.deadline = None
+        self.first_read = None
+        self.reads_since_eval = 0
+        self.max_idle_reads = 1000
+        self.evals_in_batch = 0
+        self.max_batch_evals = 0
+        self.batches = 0
+        self.deadline_seen = False
+        self.evals_after_deadline = 0
+        self.idle_reads_max_seen = 0
+
+    def arm(self, budget_seconds):
+        self.armed = True
+        self.first_read = None
+        self.budget = budget_seconds
+        self.deadline = None
+        self.reads_since_eval = 0
+        self.evals_in_batch = 0
+        self.max_batch_evals = 0
+        self.batches = 0
+        self.deadline_seen = False
+        self.evals_after_deadline = 0
+
+    def disarm(self):
+        self.armed = False
 
     def __call__(self):
         self.reads += 1
@@ -191,9 +222,30 @@ class FakeClock:
             c = _ctx.get()
             if c is not None:
                 c.stats["fault_clock_jump"] += 1
-        if self.trace is not None:
-            self.trace.append(("read", self.now))
+        if self.armed:
+            if self.first_read is None:
+                self.first_read = self.now
+                self.deadline = self.now + self.budget
+            if self.evals_in_batch > 0:
+                if not self.deadline_seen:
+                    self.max_batch_evals = max(self.max_batch_evals, self.evals_in_batch)
+                self.batches += 1
+                self.evals_in_batch = 0
+            if self.now >= self.deadline:
+                self.deadline_seen = True
+            self.reads_since_eval += 1
+            self.idle_reads_max_seen = max(self.idle_reads_max_seen, self.reads_since_eval)
+            if self.reads_since_eval > self.max_idle_reads and self.now < self.deadline:
+                raise BusyWait("%d consecutive clock readings without a posterior evaluation, %.3f s before the deadline"
+                               % (self.reads_since_eval, self.deadline - self.now))
         return self.EPOCH + self.now
 
     def advance(self, dt):
         self.now += dt
+
+    def note_eval(self):
+        if self.armed:
+            self.reads_since_eval = 0
+            self.evals_in_batch += 1
+            if self.deadline_seen:
+                self.evals_after_deadline += 1
